@@ -1125,6 +1125,29 @@ theorem focalFromPupil_full_conjugate {s : Setup} {δx δy zx zy : ℚ} {Nx Ny :
       = (.full, [(roundHalfEven (q * (Nx : ℚ))).toNat, (roundHalfEven (q * (Ny : ℚ))).toNat]) :=
   classify_focalFromPupil_full hp hlf hδx hδy hNx hNy hq
 
+/-- **Sampling of `make_focal_grid_from_pupil_grid`**: with the effective oversampling `q_eff = M/N`
+(`M = round(q·N)`), the focal spacing times `q_eff` is `λ f / D`, `D = δ·N` the pupil extent — "`q` samples per
+`λ f/D`" on both axes. -/
+theorem focalFromPupil_sampling (δx δy zx zy : ℚ) (Nx Ny : ℕ) (q lf : ℚ) (hδx : δx ≠ 0) (hδy : δy ≠ 0)
+    (hNx : 0 < Nx) (hNy : 0 < Ny) (hq : 1 ≤ q) :
+    ∃ Δx Δy : ℚ, (focalFromPupil ⟨[δx, δy], [Nx, Ny], [zx, zy]⟩ q none lf).1.delta = [Δx, Δy] ∧
+      Δx * (((roundHalfEven (q * (Nx : ℚ))).toNat : ℚ) / (Nx : ℚ)) = lf / (δx * (Nx : ℚ)) ∧
+      Δy * (((roundHalfEven (q * (Ny : ℚ))).toNat : ℚ) / (Ny : ℚ)) = lf / (δy * (Ny : ℚ)) := by
+  rw [focalFromPupil_2d]
+  refine ⟨_, _, rfl, ?_, ?_⟩
+  · have hM : ((roundHalfEven (q * (Nx : ℚ))).toNat : ℚ) ≠ 0 := by
+      have := le_round_of_one_le hq (N := Nx)
+      have : 0 < (roundHalfEven (q * (Nx : ℚ))).toNat := lt_of_lt_of_le hNx this
+      exact_mod_cast this.ne'
+    have hN : (Nx : ℚ) ≠ 0 := by exact_mod_cast hNx.ne'
+    field_simp
+  · have hM : ((roundHalfEven (q * (Ny : ℚ))).toNat : ℚ) ≠ 0 := by
+      have := le_round_of_one_le hq (N := Ny)
+      have : 0 < (roundHalfEven (q * (Ny : ℚ))).toNat := lt_of_lt_of_le hNy this
+      exact_mod_cast this.ne'
+    have hN : (Ny : ℚ) ≠ 0 := by exact_mod_cast hNy.ne'
+    field_simp
+
 /-- … so the executed pipeline conserves power on the grid the constructor returns (`λ f > 0`, `q ≥ 1`). -/
 theorem lens_power_on_focalFromPupil (s : Setup) {δx δy zx zy : ℚ} {Nx Ny : ℕ} {q : ℚ}
     (hp : s.pupil = ⟨[δx, δy], [Nx, Ny], [zx, zy]⟩) (hlf : 0 < lamf s) (hδx : δx ≠ 0) (hδy : δy ≠ 0)
